@@ -3,5 +3,6 @@ CONSTANTS
   NFiles = 3
   Protocol = "plain"
   FaultOps = TRUE
+  Pre = {"absent", "stale"}
 INVARIANTS TypeOK OriginalRecoverable NeverPartialTarget PostState LaterFilesUntouched PlainComplete Emit
 PROPERTY Terminates
